@@ -8,6 +8,7 @@
 -/
 import Lc.Lemmas.StateSpec
 import Lc.Props.C12
+import Lc.Lemmas.Sort
 
 namespace Lc.StateProbe
 open Lc Lc.Layers Lc.Mountinfo Lc.Layerfile Lc.Spec.World
@@ -169,10 +170,32 @@ theorem getMount_view_some {mnts : List Kernel.KMnt} {m : Mounts} (hv : MountsVi
   rw [hg, ht] at this
   simpa using this
 
+theorem filter_length_pos {α : Type} (p : α → Bool) (l : List α) :
+    decide ((l.filter p).length > 0) = l.any p := by
+  induction l with
+  | nil => rfl
+  | cons x xs ih =>
+    simp only [List.filter_cons, List.any_cons]
+    cases hx : p x with
+    | true => simp
+    | false => simpa using ih
+
+/-- "something is mounted at or below `bd`", on the view and on the table -/
+theorem submounts_of_view {mnts : List Kernel.KMnt} {m : Mounts} (hv : MountsView mnts m) (bd : Bytes) :
+    decide ((getMountAndSubmounts m bd).length > 0) = mnts.any (fun k => atOrBelow bd k.mp) := by
+  unfold getMountAndSubmounts
+  simp only []
+  rw [(Lc.sortBy_perm _ _).length_eq, filter_length_pos]
+  have h1 : m.list.any (fun x => x.mountpoint == bd || hasPrefix x.mountpoint (bd ++ [47]))
+      = (m.list.map entryKey).any (fun x => x.mp == bd || hasPrefix x.mp (bd ++ [47])) := by
+    rw [List.any_map]; rfl
+  rw [h1, hv.list, List.any_map]
+  rfl
+
 /-- the overlay part of the bridge holds through a view -/
 theorem overlayBridge_of_view (i : Inst) (m : Mounts) (hv : MountsView i.mnts m) (bd : Bytes) :
     OverlayBridge i m bd := by
-  refine ⟨getMount_view_isSome hv bd, ?_⟩
+  refine ⟨getMount_view_isSome hv bd, submounts_of_view hv bd, ?_⟩
   intro mnt km hg ht
   have hk := getMount_view_some hv bd mnt km hg ht
   unfold entryKey kmntKey at hk
@@ -211,28 +234,33 @@ theorem overlain_of_view (mnts : List Kernel.KMnt) (m : Mounts) (hv : MountsView
 
 /-! ### `GetMountSources` through a view: the bind-source candidates, on the kernel table -/
 
-/-- the sources `GetMountSources` lists for the kernel mount `km`: the lower directory of an
-    overlay; otherwise the device's first mount source (if `km` shows the device's root) and
-    `mountpoint/root` for every mount of the device's root directory, `km`'s own mountpoint
-    excepted -/
+/-- the sources `GetMountSources` lists for the kernel mount `km` (after fix 23c682d): the
+    lower directory of an overlay; the device's first mount source if `km` shows the
+    device's root; `mountpoint/root` for every mount of the device's root directory; and
+    `mountpoint/rest` for every mount of the device that shows `km`'s directory or a
+    directory above it; `km`'s own mountpoint excepted -/
 def kSources (mnts : List Kernel.KMnt) (km : Kernel.KMnt) : List Bytes :=
-  if km.fstype = b!"overlay" ∧ km.lower.length > 0 then [km.lower] else
   let devName := match mnts.find? (·.dev == km.dev) with
     | some f => f.source
     | none => []
   let roots := (mnts.filter (fun x => x.dev == km.dev && x.root == [47])).map (·.mp)
-  let (first, root) := if km.root = [47] then ([devName], ([] : Bytes)) else ([], km.root)
-  first ++ (roots.map fun mp => pathJoin [mp, root]).filter (· != km.mp)
+  let subs := (mnts.filter (fun x => x.dev == km.dev && x.root != [47])).map fun x => (x.root, x.mp)
+  (if km.fstype = b!"overlay" ∧ km.lower.length > 0 then [km.lower] else [])
+    ++ (if km.root = [47] then [devName] else [])
+    ++ (roots.map fun mp => pathJoin [mp, km.root]).filter (· != km.mp)
+    ++ ((subs.filter fun s => km.root == s.1 || hasPrefix km.root (s.1 ++ [47])).map
+          fun s => pathJoin [s.2, km.root.drop s.1.length]).filter (· != km.mp)
 
 theorem getDevice_view {mnts : List Kernel.KMnt} {m : Mounts} (hv : MountsView mnts m) (d : Bytes) :
     getDevice m d = (mnts.find? (·.dev == d)).map fun f =>
-      ⟨f.dev, f.source, (mnts.filter (fun x => x.dev == d && x.root == [47])).map (·.mp)⟩ := by
+      ⟨f.dev, f.source, (mnts.filter (fun x => x.dev == d && x.root == [47])).map (·.mp),
+       (mnts.filter (fun x => x.dev == d && x.root != [47])).map (fun x => (x.root, x.mp))⟩ := by
   unfold getDevice
   rw [hv.devices, ← devices_view]
   unfold Lc.Props.C12.devicesOf
   rw [Lc.Lemmas.Mountinfo.find?_devices]
   unfold Lc.Lemmas.Mountinfo.devLookup
-  rw [List.find?_map, List.filter_map, List.map_map]
+  rw [List.find?_map, List.filter_map, List.map_map, List.filter_map, List.map_map]
   cases hf : mnts.find? (·.dev == d) with
   | none =>
     have : List.find? ((fun x : Spec.KMount => x.dev == d) ∘ Kernel.toSpec) mnts = none := hf
@@ -263,15 +291,14 @@ theorem getMountSources_view {mnts : List Kernel.KMnt} {m : Mounts} (hv : Mounts
     by_cases hov : km.fstype = b!"overlay"
     · by_cases hl : km.lower.length > 0
       · simp [hov, hl]
-      · simp only [hov, ↓reduceIte, hl, and_false]
-    · have hnil : ¬ ([] : Bytes).length > 0 := by simp
-      simp only [hov, ↓reduceIte, hnil, false_and]
+      · simp [hov, hl]
+    · simp [hov]
 
 /-- the code's "is the mount source the expected one", evaluated on the kernel table alone,
     agrees with the documented comparison for the mount on the import's mountpoint.  This is
-    the exclusion of finding mount-source-behind-nonroot-mount (and of the regions named in
-    Props/C08 section 9), as a decidable predicate on the installation: it does not mention
-    the `ProbeMounts` view any more. -/
+    the exclusion of what is still different between the two (finding
+    nonbind-import-fstype-not-compared, Props/C08 section 9), as a decidable predicate on the
+    installation: it does not mention the `ProbeMounts` view any more. -/
 def SourceAgree (i : Inst) (e : Expanded) : Prop :=
   ∀ km, topAt i.mnts e.mount = some km →
     (kSources i.mnts km).contains e.source = importAsConfigured i km e.fstype e.source
@@ -374,7 +401,7 @@ theorem expanded_source_abs (cfg : Config) (d : Defs) (l : Layer) (imports : Lis
 
 /-- Through a view, `ImportBridge` is left with its two genuinely external parts, both
     statements about the installation alone: the "inside the layers directory" tests agree,
-    and `SourceAgree` (the exclusion of mount-source-behind-nonroot-mount). -/
+    and `SourceAgree` (the exclusion of finding nonbind-import-fstype-not-compared). -/
 theorem importBridge_of_view (i : Inst) (m : Mounts) (hv : MountsView i.mnts m) (e : Expanded)
     (habs : isAbs e.source = true)
     (hin : inAnyLayerDirectory i.cfg (e.source.length + 1) e.source = underLayers i e.source)
